@@ -11,6 +11,14 @@
 // Within one execution a sender class always maps to the same JID (so "from the peer asked" is meaningful).
 // Trace lines (see spec/IqDispatchTrace.tla):
 //   {"e":"SendRequest","peer":..,"x":{"id":..,"to":..},"nsent":n}
+// Deferred replies (extension set "all", QXmppTransferManager with an application that listens to fileReceived):
+//   steps {"a":"OfferSI"|"AppAccept"|"AppDecline"|"HostsOffer","nh":n|"SecondHosts"|"AbortJob"|"HostAccepts"|"HostCloses"}
+//   The stream hosts are QTcpServers of the harness on the loopback interface that hold the client's SOCKS5
+//   greeting until the behaviour says how the attempt ends (complete the handshake / close the connection).
+//   Quiescence without sleeping: the harness connects its own slots to the job's candidate socket *after* the
+//   job did, so when the harness slot has run, the job's slot for the same signal has run before it.
+//   Trace line: {"e":<action>,["nh":n,] "track":[{"tag":"offer|hosts|second","id":..,"n":replies so far}..],
+//                "closed":bool,"ok":bool}   ("ok":false: the step could not be driven, the execution ends)
 //   {"e":"Recv","t":..,"p":..,"f":..,"k":..,
 //    "x":{"id":..,"from":..,"own":B,"domain":D,"type":<concrete type attribute, "" = absent>},
 //    "out":[{"type":"result|error","id":..,"to":..,"cond":..}...],   IQ result/error stanzas sent
@@ -66,8 +74,17 @@
 #include "QXmppVersionIq.h"
 #include "QXmppVersionManager.h"
 
+#include "QXmppSocks.h"
+
+#include <QBuffer>
 #include <QCryptographicHash>
+#include <QElapsedTimer>
+#include <QPointer>
+#include <QTcpServer>
+#include <QTcpSocket>
 #include <QXmlStreamWriter>
+
+#include <functional>
 
 #include <memory>
 
@@ -315,6 +332,239 @@ Sent parseSent(const QString &xml)
     return s;
 }
 
+// A SOCKS5 stream host on the loopback interface that waits for the behaviour to decide its fate.
+class StreamHost : public QObject
+{
+public:
+    StreamHost()
+    {
+        if (!server.listen(QHostAddress::LocalHost)) {
+            fprintf(stderr, "iqin: cannot listen on loopback\n");
+            exit(2);
+        }
+        connect(&server, &QTcpServer::newConnection, this, [this]() {
+            socket = server.nextPendingConnection();
+            connect(socket, &QTcpSocket::readyRead, this, [this]() {
+                received += socket->readAll();
+                if (finish) {
+                    talk();
+                }
+            });
+        });
+    }
+    bool greeted() const { return socket && received.size() >= 3; }
+    void closeNow()
+    {
+        if (socket) {
+            socket->close();
+        }
+    }
+    void finishHandshake()
+    {
+        finish = true;
+        talk();
+    }
+    void talk()
+    {
+        if (step == 0 && received.size() >= 3) {
+            socket->write(QByteArray("\x05\x00", 2));
+            received.remove(0, 3);
+            step = 1;
+        }
+        if (step == 1 && received.size() >= 7) {
+            QByteArray reply("\x05\x00\x00", 3);
+            reply += received.mid(3);
+            socket->write(reply);
+            received.clear();
+            step = 2;
+        }
+    }
+    QTcpServer server;
+    QPointer<QTcpSocket> socket;
+    QByteArray received;
+    bool finish = false;
+    int step = 0;
+};
+
+// deferred replies of QXmppTransferManager: the incoming SOCKS5 file-transfer negotiation
+struct DeferEnv {
+    TestClient &c;
+    Rnd &r;
+    QString peer, me;
+    bool listening = false;
+    QPointer<QXmppTransferJob> job;
+    QBuffer sink;
+    std::vector<std::unique_ptr<StreamHost>> hosts, spare;
+    int cur = -1;  // host being tried
+    QString sid;
+    QStringList tags;             // in order of creation
+    QMap<QString, QString> ids;   // tag -> id of the request
+    QMap<QString, int> replies;   // tag -> result/error IQs with that id sent to the peer so far
+    int candReady = 0, candGone = 0;
+    QSet<QObject *> watched;
+
+    void note(const Sent &se)
+    {
+        if (se.tag == "iq" && (se.type == "result" || se.type == "error") && se.to == peer) {
+            for (const auto &tag : std::as_const(tags)) {
+                if (ids[tag] == se.id) {
+                    replies[tag]++;
+                }
+            }
+        }
+    }
+    void track(const QString &tag, const QString &id)
+    {
+        tags << tag;
+        ids[tag] = id;
+        replies[tag] = 0;
+    }
+    QJsonArray trackJson() const
+    {
+        QJsonArray a;
+        for (const auto &tag : tags) {
+            a.append(QJsonObject { { "tag", tag }, { "id", ids[tag] }, { "n", replies[tag] } });
+        }
+        return a;
+    }
+    static void drain()
+    {
+        for (int i = 0; i < 4; i++) {
+            QCoreApplication::processEvents();
+            QCoreApplication::sendPostedEvents();
+        }
+    }
+    // spin the event loop until pred() holds; the bound is a hang detector, not a delay
+    static bool waitFor(const std::function<bool()> &pred, int boundMs = 2000)
+    {
+        QElapsedTimer t;
+        t.start();
+        while (!pred()) {
+            if (t.elapsed() > boundMs) {
+                return false;
+            }
+            QCoreApplication::processEvents(QEventLoop::AllEvents, 5);
+        }
+        return true;
+    }
+    // connect to the candidate sockets of the job after the job itself did
+    void watchCandidates()
+    {
+        if (!job) {
+            return;
+        }
+        const auto socks = job->findChildren<QXmppSocksClient *>();
+        for (auto *sock : socks) {
+            if (watched.contains(sock)) {
+                continue;
+            }
+            watched.insert(sock);
+            QObject::connect(sock, &QXmppSocksClient::ready, &c, [this]() { ++candReady; });
+            QObject::connect(sock, &QAbstractSocket::disconnected, &c, [this]() { ++candGone; });
+        }
+    }
+    QString hostsXml(const QString &id, const std::vector<std::unique_ptr<StreamHost>> &hs) const
+    {
+        QString x = "<iq type=\"set\" id=\"" + id + "\" from=\"" + esc(peer) + "\" to=\"" + esc(me) + "\">"
+                    "<query xmlns=\"http://jabber.org/protocol/bytestreams\" sid=\"" + sid + "\" mode=\"tcp\">";
+        for (const auto &h : hs) {
+            x += QString("<streamhost jid=\"%1\" host=\"127.0.0.1\" port=\"%2\"/>").arg(esc(peer)).arg(h->server.serverPort());
+        }
+        return x + "</query></iq>";
+    }
+
+    // returns false if the step cannot be performed on the real objects (the implementation diverged)
+    bool step(const QString &a, const QJsonObject &s)
+    {
+        auto *tm = c.findExtension<QXmppTransferManager>();
+        if (!tm) {
+            return false;
+        }
+        if (a == "OfferSI") {
+            if (!listening) {
+                listening = true;
+                sink.open(QIODevice::WriteOnly);
+                QObject::connect(tm, &QXmppTransferManager::fileReceived, &c, [this](QXmppTransferJob *j) { job = j; });
+            }
+            sid = "sid-" + r.word();
+            const QString id = "offer-" + r.word(3, 6);
+            track("offer", id);
+            c.inject("<iq type=\"set\" id=\"" + id + "\" from=\"" + esc(peer) + "\" to=\"" + esc(me) + "\">"
+                     "<si xmlns=\"http://jabber.org/protocol/si\" id=\"" + sid + "\" profile=\"http://jabber.org/protocol/si/profile/file-transfer\">"
+                     "<file xmlns=\"http://jabber.org/protocol/si/profile/file-transfer\" name=\"a.txt\" size=\"5\"/>"
+                     "<feature xmlns=\"http://jabber.org/protocol/feature-neg\"><x xmlns=\"jabber:x:data\" type=\"form\">"
+                     "<field var=\"stream-method\" type=\"list-single\"><option><value>http://jabber.org/protocol/bytestreams</value></option></field>"
+                     "</x></feature></si></iq>");
+            drain();
+            return job != nullptr;
+        }
+        if (!job) {
+            return false;
+        }
+        if (a == "AppAccept") {
+            job->accept(&sink);
+            drain();
+            return true;
+        }
+        if (a == "AppDecline" || a == "AbortJob") {
+            job->abort();
+            drain();
+            return true;
+        }
+        if (a == "HostsOffer") {
+            const int nh = s["nh"].toInt();
+            for (int i = 0; i < nh; i++) {
+                hosts.push_back(std::make_unique<StreamHost>());
+            }
+            const QString id = "hosts-" + r.word(3, 6);
+            track("hosts", id);
+            cur = 0;
+            c.inject(hostsXml(id, hosts));
+            // the attempt is pending once the first host holds the client's greeting
+            bool pendingNow = waitFor([this]() { return hosts[0]->greeted() || !c.sent.isEmpty(); }) && hosts[0]->greeted();
+            watchCandidates();
+            drain();
+            return pendingNow;
+        }
+        if (a == "SecondHosts") {
+            spare.push_back(std::make_unique<StreamHost>());
+            const QString id = "second-" + r.word(3, 6);
+            track("second", id);
+            c.inject(hostsXml(id, spare));
+            drain();
+            watchCandidates();
+            return true;
+        }
+        if (a == "HostAccepts" || a == "HostCloses") {
+            if (cur < 0 || cur >= int(hosts.size()) || !hosts[cur]->greeted()) {
+                return false;
+            }
+            if (a == "HostAccepts") {
+                const int before = candReady;
+                hosts[cur]->finishHandshake();
+                bool ok = waitFor([this, before]() { return candReady > before; });
+                drain();
+                cur = -1;
+                return ok;
+            }
+            const int before = candGone;
+            hosts[cur]->closeNow();
+            bool ok = waitFor([this, before]() { return candGone > before; });
+            drain();
+            ++cur;
+            if (ok && cur < int(hosts.size())) {
+                // the job goes on to the next host: pending again once that one holds the greeting
+                ok = waitFor([this]() { return hosts[cur]->greeted() || !c.sent.isEmpty(); }) && hosts[cur]->greeted();
+                watchCandidates();
+                drain();
+            }
+            return ok;
+        }
+        fprintf(stderr, "iqin: unknown step %s\n", qPrintable(a));
+        exit(2);
+    }
+};
+
 void runBehaviour(Ctx &ctx, const QString &caseId, const QJsonObject &b)
 {
     const auto ext = b["ext"].toString();
@@ -330,6 +580,7 @@ void runBehaviour(Ctx &ctx, const QString &caseId, const QJsonObject &b)
         r.g.seed(s);
     }
 
+    std::unique_ptr<DeferEnv> defer;                      // outlives the client (its slots and stream hosts)
     std::unique_ptr<QXmppAtmTrustMemoryStorage> storage;  // outlives the client and its extensions
     auto client = std::make_unique<TestClient>(ext == "none" ? TestClient::NoExtensions : TestClient::DefaultExtensions);
     auto &c = *client;
@@ -382,8 +633,38 @@ void runBehaviour(Ctx &ctx, const QString &caseId, const QJsonObject &b)
         jids.insert(f, j);
         return j;
     };
+    // every stanza the client sent since the last call, parsed; deferred replies are attributed on the way
+    auto drainSent = [&]() {
+        QList<Sent> l;
+        for (const auto &raw : c.takeSent()) {
+            l << parseSent(raw);
+            if (defer) {
+                defer->note(l.last());
+            }
+        }
+        return l;
+    };
     for (const auto &sv : steps) {
         const auto s = sv.toObject();
+        const auto act = s["a"].toString();
+        if (act != "Recv" && act != "SendRequest") {
+            if (!defer) {
+                defer.reset(new DeferEnv { c, r, QString(), B + "/" + R });
+                defer->peer = jidOf("Contact");
+            }
+            drainSent();
+            const bool ok = defer->step(act, s);
+            drainSent();
+            QJsonObject line { { "e", act }, { "track", defer->trackJson() }, { "closed", closed }, { "ok", ok } };
+            if (s.contains("nh")) {
+                line["nh"] = s["nh"].toInt();
+            }
+            ctx.emit_(line);
+            if (!ok || closed) {
+                break;  // the step was impossible on the real objects (the implementation diverged): end here
+            }
+            continue;
+        }
         if (s["a"].toString() == "SendRequest") {
             const auto peer = s["peer"].toString();
             const QString to = jidOf(peer);
@@ -397,15 +678,15 @@ void runBehaviour(Ctx &ctx, const QString &caseId, const QJsonObject &b)
             if (!(peer == "OwnBare" && r.n(2))) {
                 req.setTo(to);
             }
-            c.takeSent();
+            drainSent();
             const int runs0 = taskRuns;
             c.sendIq(std::move(req)).then(&c, [&taskRuns](QXmppClient::IqResult &&) { ++taskRuns; });
             QCoreApplication::processEvents();
             pendOutstanding = taskRuns == runs0;  // (it completes at once only if it could not be issued)
-            const auto sentNow = c.takeSent();
+            const auto sentNow = drainSent();
             const int nsent = sentNow.size();
             if (!sentNow.isEmpty()) {
-                pendId = parseSent(sentNow.first()).id;  // the id that really went out
+                pendId = sentNow.first().id;  // the id that really went out
             }
             ctx.emit_({ { "e", "SendRequest" }, { "peer", peer }, { "x", QJsonObject { { "id", pendId }, { "to", to } } }, { "nsent", nsent } });
             continue;
@@ -465,7 +746,7 @@ void runBehaviour(Ctx &ctx, const QString &caseId, const QJsonObject &b)
         }
         xml += " to=\"" + esc(B + "/" + R) + "\">" + payload + "</iq>";
 
-        c.takeSent();
+        drainSent();
         const bool hadPending = pendOutstanding;
         const int runsBefore = taskRuns;
         c.inject(xml);
@@ -477,8 +758,7 @@ void runBehaviour(Ctx &ctx, const QString &caseId, const QJsonObject &b)
 
         QJsonArray out;
         int oreq = 0;
-        for (const auto &raw : c.takeSent()) {
-            auto se = parseSent(raw);
+        for (const auto &se : drainSent()) {
             if (se.tag == "iq" && (se.type == "result" || se.type == "error")) {
                 out.append(QJsonObject { { "type", se.type }, { "id", se.id }, { "to", se.to }, { "cond", se.cond } });
             } else {
@@ -488,7 +768,8 @@ void runBehaviour(Ctx &ctx, const QString &caseId, const QJsonObject &b)
         ctx.emit_({ { "e", "Recv" }, { "t", t }, { "p", p }, { "f", f }, { "k", k },
                     { "x", QJsonObject { { "id", id }, { "from", from }, { "own", B }, { "domain", D }, { "type", type }, { "hastype", hasType } } },
                     { "out", out }, { "oreq", oreq }, { "closed", closed }, { "pend", hadPending },
-                    { "tdone", taskRuns - runsBefore }, { "raw", xml } });
+                    { "tdone", taskRuns - runsBefore }, { "raw", xml },
+                    { "track", defer ? defer->trackJson() : QJsonArray() } });
         if (taskRuns > runsBefore) {
             pendOutstanding = false;
         }
